@@ -471,6 +471,9 @@ pub fn examine(case: &Case, origin: &str, seed: u64, report: &mut Report) -> boo
     }
     if clash_targets.contains(Tgt::Dx.name()) {
         report.count("execution-skipped:emitted-hlsl-has-name-clash");
+    } else if case.s1.shared_global_name {
+        // the execution monitors key static globals by name: with one name for several globals their observations are ambiguous
+        report.count("execution-skipped:hlsl-globals-share-a-name");
     } else {
         crate::checks::c01::examine_program(&text1, origin, seed, &mut sub);
     }
